@@ -7,6 +7,7 @@ import PQ.Lemmas.SrcEquivPush
 import PQ.Lemmas.SrcEquivOps2
 import PQ.Lemmas.SrcEquivBulk
 import PQ.Lemmas.SrcEquivBulkQ
+import PQ.Lemmas.SrcEquivExtend
 /-!
 # Source-translated tie: audit file
 
@@ -63,6 +64,8 @@ comparison counter `ticks`), the same result value, the same fault with the same
 | `Store::retain`                                  | `SrcGen.storeRetain`  | `Store.retainMut` (read-only predicate) | `SrcEquiv.storeRetain` |
 | `retain_mut`, `retain`, `append` (both queues)   | `SrcGen.{pq,dq}{RetainMut,Retain,Append}` | `{MaxQ,DQ}.{retainMut,append}` | `SrcEquiv.{pq,dq}{RetainMut,Retain,Append}` |
 | `From<Vec>`, `FromIterator`, `From<other queue>`, `Deserialize` (both queues) | `SrcGen.{pq,dq}From{Vec,Iter,Queue}`, `{pq,dq}Deserialize` | `{MaxQ,DQ}.{fromVec,fromIter,ofStore,deserialize}` | `SrcEquiv.{pq,dq}From…`, `{pq,dq}Deserialize` |
+
+| `Extend` (both queues: `reserve`, `better_to_rebuild`, rebuild or push loop) | `SrcGen.{pq,dq}Extend` | `{MaxQ,DQ}.extend` | `SrcEquiv.{pq,dq}Extend` |
 
 NOT tied this way: see `PQ/Model/SRC_README.md`.
 
@@ -198,3 +201,5 @@ end PQ.SrcTie
 #print axioms PQ.SrcEquiv.dqFromIter
 #print axioms PQ.SrcEquiv.dqFromQueue
 #print axioms PQ.SrcEquiv.dqDeserialize
+#print axioms PQ.SrcEquiv.pqExtend
+#print axioms PQ.SrcEquiv.dqExtend
